@@ -188,6 +188,7 @@ Definition registry : list reg :=
     mkReg "stylecheck/st1020/st1020.go:run:T.(type)" (UIface "ast.Expr")
       [bad_expr; type_exprs;
        ex ["*ast.StarExpr"] "the pointer star of the receiver type is removed before the switch";
+       ex ["*ast.ParenExpr"] "parentheses around the receiver type and around its base type are removed by ast.Unparen before the switch (explored by the directed program odd_parens)";
        ex ["*ast.BasicLit"; "*ast.BinaryExpr"; "*ast.CallExpr"; "*ast.CompositeLit"; "*ast.Ellipsis"; "*ast.FuncLit";
            "*ast.KeyValueExpr"; "*ast.SelectorExpr"; "*ast.SliceExpr"; "*ast.TypeAssertExpr"; "*ast.UnaryExpr"]
           "spec, Method declarations: the receiver base type is a type name of the same package, optionally followed by type parameter names"]
@@ -260,6 +261,10 @@ Definition reg_witnesses (r : reg) : option (list string) :=
   end.
 Definition reg_ok (r : reg) : bool :=
   match reg_witnesses r with Some [] => true | _ => false end.
+
+(* coverage test for a named switch against an explicitly given universe and exclusion list *)
+Definition chk (id : string) (univ excl : list string) : bool :=
+  match find_switch id with Some sw => covers gen_universes (sw_cases sw) univ excl | None => false end.
 
 Definition registry_report : list (string * option (list string)) :=
   filter (fun x => match snd x with Some [] => false | _ => true end)
